@@ -9,6 +9,7 @@ import (
 	"strconv"
 	"strings"
 	"testing"
+	"time"
 
 	abci "github.com/cometbft/cometbft/abci/types"
 	authtypes "github.com/cosmos/cosmos-sdk/x/auth/types"
@@ -150,6 +151,26 @@ func c15Envs() []c15Env {
 				_ = w.app.EsmKeeper.SetKillSwitchData(ctx, esmtypes.KillSwitchParams{AppId: a.Id, BreakerEnable: true})
 			}
 		}},
+		{"debt-feed-inactive", func(w *c15World, ctx sdk.Context) {
+			// only the debt assets of the vault pairs lose their feed (fixed-price-debt pairs do not need it to value
+			// the debt, but the auction activators insist on it): a late error of the vault liquidation step
+			for _, p := range w.app.AssetKeeper.GetPairs(ctx) {
+				if twa, ok := w.app.MarketKeeper.GetTwa(ctx, p.AssetOut); ok {
+					twa.IsPriceActive = false
+					w.app.MarketKeeper.SetTwa(ctx, twa)
+				}
+			}
+		}},
+		{"no-auction-type", func(w *c15World, ctx sdk.Context) {
+			apps, _ := w.app.AssetKeeper.GetApps(ctx)
+			for _, a := range apps {
+				if wl, ok := w.app.NewliqKeeper.GetLiquidationWhiteListing(ctx, a.Id); ok {
+					wl.IsDutchActivated = false
+					wl.IsEnglishActivated = false
+					w.app.NewliqKeeper.SetLiquidationWhiteListing(ctx, wl)
+				}
+			}
+		}},
 		{"dutch-off", func(w *c15World, ctx sdk.Context) {
 			apps, _ := w.app.AssetKeeper.GetApps(ctx)
 			for _, a := range apps {
@@ -198,6 +219,20 @@ func (w *c15World) envRun(scen string, state sdk.Context, reach string) {
 		r := w.run(state, blk, 0, 0, false)
 		w.tr.Count("env-runs")
 		w.envLine(scen, state, blk, reach, r)
+		if r.returned {
+			// units that report failure by themselves in this environment (late or early) must be invisible
+			for ui, uu := range r.units {
+				if !uu.committed && uu.own > 0 {
+					ref := w.run(state, blk, ui+1, 0, false)
+					if ref.injected {
+						w.naturalLine(scen, blk, r, ref, ui+1)
+					}
+				}
+			}
+			if blk.name == "rewards.BeginBlocker" {
+				w.subStepLines(scen, state, blk)
+			}
+		}
 	}
 }
 
@@ -217,6 +252,7 @@ func (w *c15World) envLine(scen string, state sdk.Context, blk c15Blocker, reach
 		w.tr.Line("hooks.env.single", scen, blk.name, reach, c15Ret(r.returned), "sweep", strconv.Itoa(capV), u(counter), u(batch), c15U64s(offs))
 		if gen == 2 {
 			w.uloopLine(scen, state, blk, reach, r)
+			w.stepsLine(scen, state, blk, reach, r)
 		}
 		w.postLine(scen, state, blk, reach, r, gen)
 	default:
@@ -350,8 +386,20 @@ func TestC15(t *testing.T) {
 		w.setupV1(nV)
 		w.setupLiquidity(1, "ucmdx", "ucmst", w.addr[6:10])
 		w.createGauge(1, w.addr[0], "uharbor")
+		w.activateVaultRewards(1, 1, w.addr[0], "uharbor")
 		w.advance(6, 1)
 		w.campaign("v1.healthy", w.ctx, blockers, ks)
+		{
+			// a day later: the external vault rewards of the app are due
+			st, _ := w.ctx.CacheContext()
+			st = st.WithBlockTime(st.BlockTime().Add(90000 * time.Second)).WithBlockHeight(st.BlockHeight() + 15000)
+			w.campaign("v1.healthy+1day", st, []c15Blocker{c15Find("rewards.BeginBlocker")}, ks)
+			for _, e := range c15Envs() {
+				st2, _ := st.CacheContext()
+				e.prep(w, st2)
+				w.envRun("v1.healthy+1day+"+e.name, st2, "1")
+			}
+		}
 		w.apply("liquidity.EndBlocker")
 		w.apply("liquidity.BeginBlocker")
 		w.advance(6, 1)
@@ -367,8 +415,10 @@ func TestC15(t *testing.T) {
 			}
 		}
 		w.apply("liquidation.BeginBlocker")
+		w.apply("liquidity.BeginBlocker") // (on chain every EndBlocker is preceded by the BeginBlocker's clean-up of finished requests)
 		w.apply("liquidity.EndBlocker")
 		w.advance(100, 15)
+		w.apply("liquidity.BeginBlocker")
 		// a partial bid on the first auction
 		if as := w.app.AuctionKeeper.GetDutchAuctions(w.ctx, 1); len(as) > 0 {
 			w.fund(w.addr[10], "ucmst", 100000000)
